@@ -119,7 +119,6 @@ GO_KERNELS = {
     # id: (module, type, kernel subroutine, n algorithm args)
     "gcopy": ("kernel_field_copy_mod", "copy", "field_copy_code", 2),
     "gssh": ("kernel_scalar_float", "bc_ssh", "bc_ssh_code", 2),
-    "gcu": ("compute_cu_mod", "compute_cu", "compute_cu_code", 3),
 }
 GO_PRELUDE = '''\
   implicit none
@@ -526,7 +525,7 @@ def work(job):
                 alg, psy = G.generate(fname, api=apiname, kernel_paths=[kdir],
                                       distributed_memory=dm)
                 alg_text, psy_text = str(alg), str(psy)
-            except SystemExit as err:
+            except SystemExit:
                 out["paths"][pname] = ("refused", "SystemExit")
                 continue
             except Exception as err:    # noqa  (a refusal is not a violation)
